@@ -5,7 +5,10 @@
    (ii) oracle, independent of the Coq model: answers of requests with the same key hand out no
         configuration a (k+1)-th time before every configuration was handed out k times; every
         answer is a contiguous piece of the sequential cycle of its key, of the requested size or
-        cut at the end of the cycle; the answers are those of SOME sequential order. *)
+        cut at the end of the cycle; the answers are those of SOME sequential order.
+   (iii) who shares a cursor (repair F21): mode clones - an instance and its clones are ONE cursor
+        (all their answers together = one sequential run); mode independent - two separately loaded
+        instances of one file are TWO (each run on its own = a sequential run from position 0). *)
 open Blocks
 
 let ios = int_of_string
@@ -88,6 +91,16 @@ let check (b : block) : verdict list =
     | Viol (s, m) when mode = "dupset" -> add (Viol ("enum:duplicate-literal-key", s ^ ": " ^ m))
     | Diff ("foreign-key", m) when mode = "dupset" ->
       add (Viol ("enum:duplicate-literal-key", "second-cursor: " ^ m ^ " (a spelling of the set has a cursor entry of its own)"))
+    (* mode clones: the requests went round-robin to an instance and two clones of it - the stream
+       workers are such clones and must page through the model TOGETHER (C17 presupposes it; since
+       the repair F21 the cursor is a field of the model behind an Arc that clone() shares) *)
+    | Viol (s, m) when mode = "clones" ->
+      add (Viol ("enum:clones-separate-cursors", s ^ ": " ^ m ^ " (requests distributed over an instance and its clones must be answered like a sequential run on ONE cursor)"))
+    (* mode independent: run 0 / run 1 are the answers of two separately loaded instances of the
+       same file, asked alternately - two models, two cursors (C16; before F21 one process-global
+       cursor: finding K2, now a detector without a finding line) *)
+    | Viol (s, m) when mode = "independent" ->
+      add (Viol ("enumerate:cursor-shared-across-models", s ^ ": " ^ m ^ " (each of two independently loaded instances must page from position 0 through its own cycle, whatever the other is asked)"))
     | v -> add v in
   let hook = match find b "hook" with Some ["1"] -> true | _ -> false in
   if hook then bump "blocks_with_hook_H3" else bump "blocks_hook_H3_absent_stress_only";
@@ -150,6 +163,8 @@ let check (b : block) : verdict list =
      | Some [n; "random"] -> bump_by "interleavings_random" (ios n)
      | Some [n; "free"] -> bump_by "stress_runs" (ios n)
      | Some [n; "sequential"] -> bump_by "duplicate_literal_runs" (ios n)
+     | Some [n; "clones"] -> bump_by "clone_sharing_runs" (ios n)
+     | Some [n; "independent"] -> bump_by "independent_instance_runs" (ios n)
      | _ -> ());
     (* model side: requests and counts for the extracted protocol *)
     let zkey k = List.map Conv.z_of_int kinfo.(k).klits in
